@@ -1,7 +1,7 @@
 // C39 harness: Optimizer (LBFGS, LBFGSB, InteriorPoint, CMAES, BestAvailable selection) on generated problems.
 //
 //   I select req nEq nIneq hasLim                         -> O select <algorithm actually constructed | EXC>
-//   I opt <19 ints> <doubles...> <log>                    -> O opt <algorithm actually constructed> 1
+//   I opt <20 ints> <doubles...> <log>                    -> O opt <algorithm actually constructed> 1
 //        (kind K: the Lean driver re-evaluates the whole contract in exact rationals on the doubles returned and must
 //         answer `O opt <model's selection> 1`)
 //
@@ -27,6 +27,7 @@ struct Prob : public OptimizerSystem {
     int n = 0, ptype = 0, nEq = 0, nIneq = 0;
     bool hasLim = false;
     double cR = 1;
+    double gradSign = 1;      // -1: the analytic gradient handed to the optimizer has the wrong sign (forces a line-search failure)
     std::vector<double> L, A, b, lo, hi, C, d;                 // C is (nEq+nIneq) x n row major
     bool haveStar = false;
     std::vector<double> xstar, mult, zlo, zhi;
@@ -66,7 +67,7 @@ struct Prob : public OptimizerSystem {
     int gradientFunc(const Vector& x, bool, Vector& g) const override {
         note(1, x);
         if (ptype == 0) {
-            for (int i = 0; i < n; ++i) { double s = 0; for (int j = 0; j < n; ++j) s += A[i * n + j] * x[j]; g[i] = s - b[i]; }
+            for (int i = 0; i < n; ++i) { double s = 0; for (int j = 0; j < n; ++j) s += A[i * n + j] * x[j]; g[i] = gradSign * (s - b[i]); }
         } else {
             for (int i = 0; i < n; ++i) g[i] = 0;
             for (int i = 0; i + 1 < n; ++i) {
@@ -75,6 +76,7 @@ struct Prob : public OptimizerSystem {
                 g[i + 1] += 2 * cR * t;
             }
             g[n - 1] += -2 * (1 - x[n - 1]);
+            for (int i = 0; i < n; ++i) g[i] *= gradSign;
         }
         return 0;
     }
@@ -101,6 +103,7 @@ struct Run {
     double tol = 1e-6, ctol = 1e-6;
     std::vector<double> x0;
     int seed = 7;
+    int forceFail = 0;        // 1: setMaxIterations(2) (IPOPT gives up), 2: wrong-sign gradient (line search fails)
 };
 
 static const char* algName(int a) {
@@ -135,7 +138,7 @@ static void emitRecord(const Prob& P, const Run& R, int alg, int status, double 
     vh::Line in = vh::I("opt");
     long nEval = P.cnt[0] + P.cnt[1] + P.cnt[2] + P.cnt[3];
     in.i(R.req).i(alg).i(n).i(P.nEq).i(P.nIneq).i(P.hasLim).i(R.numGrad).i(R.numJac).i(R.method).i(P.ptype).i(status)
-      .i(nEval).i(P.cnt[0]).i(P.cnt[1]).i(P.cnt[2]).i(P.cnt[3]).i((long)P.log.size()).i(P.haveStar).i(R.seed);
+      .i(nEval).i(P.cnt[0]).i(P.cnt[1]).i(P.cnt[2]).i(P.cnt[3]).i((long)P.log.size()).i(P.haveStar).i(R.seed).i(R.forceFail);
     in.d(R.tol).d(R.ctol).d(P.cR).d(acc);
     for (double v : P.L) in.d(v);
     for (double v : P.b) in.d(v);
@@ -210,12 +213,13 @@ static void predicates(const Prob& P, const Run& R, int alg, double fret, const 
         vh::P("constraints_within_tolerance", key + ".feasible", worst, R.ctol * 1.000001);
     }
     // (5) strictly convex problems: the returned point is the (designed, KKT-certified) unique minimiser within tolerance
-    if (P.haveStar) {
+    if (P.haveStar && R.forceFail != 2) {      // (a user-supplied wrong gradient voids the optimality claim, not the others)
         double e2 = 0; for (int i = 0; i < n; ++i) e2 += (xret[i] - P.xstar[i]) * (xret[i] - P.xstar[i]);
         vh::P("unique_minimiser_within_tol", key + ".nearopt", std::sqrt(e2), nearBound(alg, R, n, fret, P.fAt(P.xstar.data()), P.hasLim));
     }
 }
 
+static long gTotal[8] = {0}, gOk[8] = {0};
 static int runCase(Prob& P, const Run& R, const std::string& tag) {
     int n = P.n;
     int alg = -1, status = 0;
@@ -226,7 +230,7 @@ static int runCase(Prob& P, const Run& R, const std::string& tag) {
         alg = (int)opt.getAlgorithm();
         opt.setConvergenceTolerance(R.tol);
         opt.setConstraintTolerance(R.ctol);
-        opt.setMaxIterations(alg == CMAES ? 3000 : 1000);
+        opt.setMaxIterations(R.forceFail == 1 ? 2 : (alg == CMAES ? 3000 : 1000));
         opt.setLimitedMemoryHistory(20);
         opt.setDiagnosticsLevel(0);
         if (alg != CMAES) {
@@ -272,6 +276,7 @@ static int runCase(Prob& P, const Run& R, const std::string& tag) {
         return 2;
     }
     vh::D(std::string(algName(alg)) + "." + tag + (status ? ".EXC" : ".ok"));
+    if (R.forceFail == 0 && alg >= 0 && alg < 8) { gTotal[alg]++; if (status == 0) gOk[alg]++; }
     vh::D("req." + std::string(algName(R.req)) + "->" + algName(alg));
     // wrapper logic: which user virtuals may be called
     if (alg != CMAES) {
@@ -281,11 +286,28 @@ static int runCase(Prob& P, const Run& R, const std::string& tag) {
     } else {
         vh::P("cmaes_is_derivative_free", tag + ".cmaes.nograd", (double)(P.cnt[1] + P.cnt[3]), 0);
     }
-    if (status == 0) predicates(P, R, alg, fret, xret, std::string(algName(alg)) + "." + tag);
-    else if (P.hasLim && (alg == LBFGSB || alg == CMAES)) {
-        double worst = 0;
-        for (int i = 0; i < n; ++i) worst = std::max(worst, std::max(P.lo[i] - P.envLo[i], P.envHi[i] - P.hi[i]));
-        vh::P("evaluations_within_limits", std::string(algName(alg)) + "." + tag + ".evalbox", P.cnt[0] ? worst : 0.0, 0.0);
+    const std::string akey = std::string(algName(alg)) + "." + tag;
+    if (status == 0) predicates(P, R, alg, fret, xret, akey);
+    else {
+        // The optimizer left by an exception.  Nothing is "returned", but the caller's vector was written and the objective
+        // was evaluated: limits must still have been honoured, and a descent method must not leave a worse point behind.
+        const bool numdiff = alg != CMAES && (R.numGrad || (R.numJac && P.nEq + P.nIneq > 0));
+        bool startInside = true; for (int i = 0; i < n; ++i) startInside = startInside && (!P.hasLim || (P.lo[i] <= R.x0[i] && R.x0[i] <= P.hi[i]));
+        if (P.hasLim && !numdiff && (alg == LBFGSB || alg == CMAES || (alg == InteriorPoint && startInside))) {
+            double worst = 0, worstLeft = 0;
+            for (int i = 0; i < n; ++i) {
+                double relax = (alg == InteriorPoint) ? 1.0000001e-8 : 0.0;
+                double rl = std::isinf(P.lo[i]) ? 0 : relax * std::max(1.0, std::fabs(P.lo[i])), rh = std::isinf(P.hi[i]) ? 0 : relax * std::max(1.0, std::fabs(P.hi[i]));
+                worst = std::max(worst, std::max((P.lo[i] - rl) - P.envLo[i], P.envHi[i] - (P.hi[i] + rh)));
+                worstLeft = std::max(worstLeft, std::max((P.lo[i] - rl) - xret[i], xret[i] - (P.hi[i] + rh))); }
+            vh::P("evaluations_within_limits", akey + ".exc.evalbox", P.cnt[0] + P.cnt[1] ? worst : 0.0, 0.0);
+            if (alg != CMAES) vh::P("vector_left_within_limits", akey + ".exc.leftbox", worstLeft, 0.0);
+        }
+        if (alg == LBFGS || alg == LBFGSB) {
+            std::vector<double> s0 = R.x0;
+            if (P.hasLim && alg == LBFGSB) for (int i = 0; i < n; ++i) s0[i] = std::min(std::max(s0[i], P.lo[i]), P.hi[i]);
+            vh::P("vector_left_not_worse_than_start", akey + ".exc.descent", P.fAt(xret.data()) - P.fAt(s0.data()), 0.0);
+        }
     }
     return status;
 }
@@ -371,11 +393,11 @@ static void selectCase(int req, int nEq, int nIneq, bool lim) {
 }
 
 static void replayOpt(std::istringstream& is) {
-    long iv[19]; for (auto& v : iv) is >> v;
+    long iv[20]; for (auto& v : iv) is >> v;
     auto rd = [&]() { std::string t; is >> t; return vh::unhex(t); };
     Prob P; Run R;
     R.req = (int)iv[0]; int n = P.n = (int)iv[2]; P.nEq = (int)iv[3]; P.nIneq = (int)iv[4]; P.hasLim = iv[5] != 0;
-    R.numGrad = (int)iv[6]; R.numJac = (int)iv[7]; R.method = (int)iv[8]; P.ptype = (int)iv[9]; P.haveStar = iv[17] != 0; R.seed = (int)iv[18];
+    R.numGrad = (int)iv[6]; R.numJac = (int)iv[7]; R.method = (int)iv[8]; P.ptype = (int)iv[9]; P.haveStar = iv[17] != 0; R.seed = (int)iv[18]; R.forceFail = (int)iv[19]; P.gradSign = R.forceFail == 2 ? -1 : 1;
     R.tol = rd(); R.ctol = rd(); P.cR = rd(); (void)rd();
     int nc = P.nEq + P.nIneq;
     P.L.resize(n * n); for (auto& v : P.L) v = rd();
@@ -464,8 +486,21 @@ int main(int argc, char** argv) {
         }
         if (P.n == 0) continue;
         if (R.req == CMAES) R.numGrad = R.numJac = 0;
+        // a guaranteed share of runs that must end in an exception (the exception path has predicates of its own)
+        if (R.req != CMAES && R.req != CFSQP && g.below(12) == 0) {
+            bool ip = R.req == InteriorPoint || (R.req == BestAvailable && P.nEq + P.nIneq > 0);
+            if (ip) { R.forceFail = 1; tag += ".maxIter2"; }
+            else if (!R.numGrad) { R.forceFail = 2; P.gradSign = -1; tag += ".wrongGradSign"; }
+        }
         if (R.numGrad) tag += R.method == 1 ? ".numC" : ".numF";
         runCase(P, R, tag);
+    }
+    // floors: the result predicates are only evaluated when the optimizer returns; a regression that makes an algorithm throw
+    // on (nearly) every problem must not pass silently.  Measured share of returning runs on the clean tree: 100 % for all four.
+    for (int a : {(int)InteriorPoint, (int)LBFGS, (int)LBFGSB, (int)CMAES}) {
+        if (gTotal[a] < 5) continue;
+        vh::I("floor").i(a).i(gTotal[a]).i(gOk[a]).emit(); std::printf("O floor 1\n");
+        vh::P("share_of_runs_reaching_result_predicates", std::string("floor.") + algName(a), 0.9 - (double)gOk[a] / gTotal[a], 0.0);
     }
     return 0;
 }
